@@ -56,3 +56,10 @@ impl std::io::Write for CountSink {
         Ok(())
     }
 }
+
+/// Stub for `alloc::fmt::format` (error-message construction): returns an empty string. Used with
+/// `#[kani::stub(alloc::fmt::format, ...)]`; every harness using it is listed with this stub in its evidence.
+#[cfg(kani)]
+pub fn stub_format(_args: std::fmt::Arguments<'_>) -> String {
+    String::new()
+}
